@@ -12,7 +12,7 @@ HDR = "random_views_sym.h"
 TREES = ["v1", "v1_v4_add", "v1_t2_mul", "c3_v1_mul_v4_sub", "c7", "t2", "t2_t3_add", "t2_t3_mul", "v4"]
 OPS = ["set", "add", "sub", "mul"]
 LANES = {"scalar": 0, "sse2": 16, "sse42": 16, "avx": 32, "avx2": 32, "avx512": 64}
-ITY = {"i32": "int", "i64": "long", "u64": "unsigned long"}
+ITY = {"i32": "int", "i64": "long", "u64": "unsigned long", "ll": "long long"}
 
 def load_vars():
     """the variant table (act, op, tree, cst) is read from the harness so that the two cannot drift apart"""
@@ -74,7 +74,7 @@ def dims_for(cls, V, rng):
         return rng.choice([(3, V + 1), (V + 1, 3)] if V != 3 else [(2, 5), (5, 2)]) if rng.random() < 0.7 else rng.choice([(1, V + 1), (2 * V + 1, 1)])
     return rng.choice([(1, V - 1), (V - 1, 1)] + ([(2, (V - 1) // 2), ((V - 1) // 2, 2)] if V >= 5 else []))
 
-def single_calls(rng, isa, sz, tier, writes_only=False):
+def single_calls(rng, isa, sz, tier, writes_only=False, gi=0):
     """seeded longer index tensors: for every overload x size class (vector-only / vector+tail / tail-only) one read and one
     write instantiation, each serving several index vectors (duplicate-free arbitrary order, with repeats, descending)"""
     V = vlanes(isa, sz)
@@ -84,35 +84,54 @@ def single_calls(rng, isa, sz, tier, writes_only=False):
     rounds = 1 if tier == "quick" else 3
     itys = list(ITY.values())
     rots = {True: Rot(rng, list(range(NV))), False: Rot(rng, list(range(NV)))}    # 1-D view class / n-D view class
-    def variants(one_d=False):
+    rc = {"c": rng.randrange(8), "n": rng.randrange(8), "k": 0}
+    READS_C = [i for i in READS if VARS[i][3] == 1]; READS_N = [i for i in READS if VARS[i][3] == 0]
+    def variants(one_d=False, want_const=None):
+        """one read and one write variant; the read goes through the const-parent overload when want_const"""
         r = rots[one_d]
         w = r.w[r.wi % len(r.w)]; r.wi += 1
         if writes_only: return [w]
-        rd = r.r[r.ri % len(r.r)]; r.ri += 1
+        if want_const is None:
+            rd = r.r[r.ri % len(r.r)]; r.ri += 1
+        elif want_const:
+            rd = READS_C[rc["c"] % len(READS_C)]; rc["c"] += 1
+        else:
+            rd = READS_N[rc["n"] % len(READS_N)]; rc["n"] += 1
         return [rd, w]
+    def combo(kind_index, ci):
+        """(index type, const parent) of the read instantiation: the 8 combinations are enumerated cyclically over
+        size classes and groups, so every overload meets every combination within two groups"""
+        return (gi * 3 + ci + kind_index) % 8
+    def ity_of(kind_index, ci, vi, shift=0):
+        q = combo(kind_index, ci)
+        return itys[(q + shift + (0 if vi in READS else 1 + ci)) % len(itys)]
+    def cst_of(kind_index, ci):
+        return combo(kind_index, ci) >= 4
     def other(lo, avoid):
         x = lo + rng.randint(0, 3)
         while x in avoid: x += 1
         return x
     classes = ["vo", "vt", "to"] if V > 1 else ["vo"]
-    for _ in range(rounds):
-        for cls in classes:
+    for rnd in range(rounds):
+        for ci0, cls in enumerate(classes):
+            ci = ci0 + rnd
             # flat1
             a, b = dims_for(cls, V, rng); M = a * b
-            N = other(M + 1, {M}); ity = rng.choice(itys)
-            for vi in variants(True):
+            N = other(M + 1, {M})
+            for vi in variants(True, cst_of(0, ci % 3)):
                 for rep in range(nrep):
-                    calls.append('rv::flat1<%s,%s,%d,%d,%d>("%s");' % (T, ity, N, M, vi, idx_str(pick_indices(rng, M, N, rep % 3))))
+                    calls.append('rv::flat1<%s,%s,%d,%d,%d>("%s");' % (T, ity_of(0, ci, vi), N, M, vi, idx_str(pick_indices(rng, M, N, rep % 3))))
             # flat2
             P, Q = dims_for(cls, V, rng)
-            R = rng.randint(2, 5); C = other((P * Q + R - 1) // R + 1, {R, P, Q}); ity = rng.choice(itys)
-            for vi in variants():
+            R = rng.randint(2, 5); C = other((P * Q + R - 1) // R + 1, {R, P, Q})
+            for vi in variants(False, cst_of(1, ci % 3)):
                 for rep in range(nrep):
-                    calls.append('rv::flat2<%s,%s,%d,%d,%d,%d,%d>("%s");' % (T, ity, R, C, P, Q, vi, idx_str(pick_indices(rng, P * Q, R * C, rep % 3))))
+                    calls.append('rv::flat2<%s,%s,%d,%d,%d,%d,%d>("%s");' % (T, ity_of(1, ci, vi), R, C, P, Q, vi, idx_str(pick_indices(rng, P * Q, R * C, rep % 3))))
             # index x index
             M, N = dims_for(cls, V, rng)
-            R = other(max(M, 2), {M, N}); C = other(max(N, 2), {R, M, N, 1}); i0t, i1t = rng.choice(itys), rng.choice(itys)
-            for vi in variants():
+            R = other(max(M, 2), {M, N}); C = other(max(N, 2), {R, M, N, 1})
+            for vi in variants(False, cst_of(2, ci % 3)):
+                i0t, i1t = ity_of(2, ci, vi), ity_of(2, ci, vi, 1 + ci % 3)
                 for rep in range(nrep):
                     x = pick_indices(rng, M, R, rep % 3); y = pick_indices(rng, N, C, (rep + (rep > 1)) % 3)
                     calls.append('rv::ii<%s,%s,%s,%d,%d,%d,%d,%d>("%s","%s");' % (T, i0t, i1t, R, C, M, N, vi, idx_str(x), idx_str(y)))
@@ -121,8 +140,9 @@ def single_calls(rng, isa, sz, tier, writes_only=False):
                 a, b = dims_for(cls, V, rng); M = a * b
                 if not swap: R = other(max(M, 2), {M}); C = other(2, {R, M, 1})
                 else: C = other(max(M, 2), {M, 1}); R = other(2, {C, M})
-                i0t, i1t = rng.choice(itys), rng.choice(["int", "long", "unsigned long", "short"])
-                for vi in variants():
+                nums = ["int", "long", "unsigned long", "short", "long long"]
+                for vi in variants(False, cst_of(3 + swap, ci % 3)):
+                    i0t = ity_of(3 + swap, ci, vi); i1t = nums[(rc["k"]) % len(nums)]; rc["k"] += 1
                     for rep in range(nrep):
                         x = pick_indices(rng, M, C if swap else R, rep % 3); hi = R if swap else C
                         num = hi - 1 if rep == 0 else rng.randrange(1, hi)
@@ -134,10 +154,10 @@ def single_calls(rng, isa, sz, tier, writes_only=False):
                 end = F + (fsz - 1) * S + 1                 # smallest `last` giving fsz elements
                 D = end + rng.choice([0, 0, 1, 2]); L = -1 if (D - F + S - 1) // S == fsz and rng.random() < 0.6 else end
                 O = other(max(K, 2), {K, D, fsz, 1})
-                R, C = (O, D) if kind == "if_" else (D, O); ity = rng.choice(itys)
-                for vi in variants():
+                R, C = (O, D) if kind == "if_" else (D, O); kix = 5 if kind == "if_" else 6
+                for vi in variants(False, cst_of(kix, ci % 3)):
                     for rep in range(nrep):
-                        calls.append('rv::%s<%s,%s,%d,%d,%d,%d,%d,%d,%d>("%s");' % (kind, T, ity, R, C, K, F, L, S, vi, idx_str(pick_indices(rng, K, O, rep % 3))))
+                        calls.append('rv::%s<%s,%s,%d,%d,%d,%d,%d,%d,%d>("%s");' % (kind, T, ity_of(kix, ci, vi), R, C, K, F, L, S, vi, idx_str(pick_indices(rng, K, O, rep % 3))))
     if not writes_only:
         # the view as the source of an assignment to a 2-D / 3-D range view (two-index and multi-index members)
         for q in range(3 if tier == "quick" else 8):
@@ -155,6 +175,29 @@ def single_calls(rng, isa, sz, tier, writes_only=False):
             for rep in range(nrep):
                 x = pick_indices(rng, P0 * P1 * P2, D0 * D1 * D2, rep % 3)
                 calls.append('rv::to3d<%s,%s,%d,%d,%d,%d,%d,%d,%d,%d>("%s");' % (T, itys[q % 3], D0, D1, D2, P0, P1, P2, 1 - q % 2, q % 2, idx_str(x)))
+        # joint cases with the range views: X = A(it0,it1) + S(r0,r1) (two-index constructor loop); A(it) op= S(range)
+        for q in range(3 if tier == "quick" else 9):
+            N = [V + 1, 2 * V, max(V - 1, 2)][q % 3] if q < 3 else rng.randint(2, 2 * V + 2)
+            M = rng.randint(2, 3)
+            R = other(M, {M, N}); C = other(N, {R, M, N})
+            F0, S0, F1, S1 = rng.randint(0, 2), rng.randint(1, 2), rng.randint(0, 2), [1, 2, 1][q % 3]
+            SR = F0 + (M - 1) * S0 + 1 + rng.randint(0, 1); SC = other(F1 + (N - 1) * S1 + 1, {SR, C})
+            for rep in range(nrep):
+                x = pick_indices(rng, M, R, rep % 3); y = pick_indices(rng, N, C, (rep + 1) % 3)
+                calls.append('rv::ctor2<%s,%s,%s,%d,%d,%d,%d,%d,%d,%d,%d,%d,%d,%d>("%s","%s");' % (T, itys[q % 4], itys[(q + 2) % 4], R, C, M, N, SR, SC, F0, S0, F1, S1, q % 2, idx_str(x), idx_str(y)))
+    # (also in the vectorised-assign groups)
+    for q in range(3 if tier == "quick" else 9):
+        M = [V + 1, 2 * V, max(V - 1, 1)][q % 3] if q < 3 else rng.randint(1, 2 * V + 2)
+        N = other(M + 1, {M}); F, St = rng.randint(0, 2), [1, 2, 3][q % 3]
+        SN = F + (M - 1) * St + 1 + rng.randint(0, 2); OP = (q + (1 if writes_only else 0)) % 4
+        for rep in range(nrep):
+            calls.append('rv::vsrc<%s,%s,%d,%d,%d,%d,%d,%d,%d>("%s");' % (T, itys[(q + 1) % 4], N, M, SN, F, St, OP, q % 2, idx_str(pick_indices(rng, M, N, rep % 3))))
+    if not writes_only:
+        for q in range(2 if tier == "quick" else 6):
+            N = [2 * V + 1, V][q % 2] if q < 2 else rng.randint(1, 2 * V + 3)
+            F, St = rng.randint(0, 2), 1 + q % 2
+            SN = F + (N - 1) * St + 1 + rng.randint(0, 2)
+            calls.append("rv::fsrc_seeded<%s,%d,%d,%d,%d,%d,%d>(%d,%du);" % (T, N, SN, F, St, (q + gi) % 4, (q + 1) % 2, 4 if tier == "quick" else 12, rng.randrange(1 << 16)))
     return calls
 
 def exhaustive_calls(rng, isa, sz, tier, writes_only=False):
@@ -167,7 +210,7 @@ def exhaustive_calls(rng, isa, sz, tier, writes_only=False):
     rot1, rot2 = Rot(rng, pool), Rot(rng, pool)       # 1-D view class, n-D view class
     for N in range(1, 6):
         for M in range(1, 4):
-            calls.append("rv::flat1_all<%s,%s,%d,%d,%s>(%d,%du);" % (T, rng.choice(itys), N, M, vset(rot1.take(nvar)), per, rng.randrange(NV)))
+            calls.append("rv::flat1_all<%s,%s,%d,%d,%s>(%d,%du);" % (T, itys[(N + M) % len(itys)], N, M, vset(rot1.take(nvar if N == 5 or tier != "quick" else 2)), per, rng.randrange(NV)))
     shapes = [(2, 3, 3, 2), (3, 2, 2, 3), (2, 3, 2, 3), (3, 2, 1, 3), (1, 5, 1, 3), (5, 1, 3, 1), (2, 2, 3, 3), (2, 3, 3, 1)]
     for (R, C, M, N) in (shapes[:2] + rng.sample(shapes[2:], 2) if tier == "quick" else shapes):
         calls.append("rv::ii_all<%s,%s,%s,%d,%d,%d,%d,%s>(%d,%du);" % (T, rng.choice(itys), rng.choice(itys), R, C, M, N, vset(rot2.take(nvar)), 1 if tier == "quick" else 3, rng.randrange(NV)))
@@ -218,7 +261,7 @@ def sym_groups(tier, seed):
     for ii, isa in enumerate(isas):
         fc = filter_calls(rng, ii, isa, tier, seed)
         for sz in (4, 8):
-            calls = exhaustive_calls(rng, isa, sz, tier) + single_calls(rng, isa, sz, tier) + fc[sz]
+            calls = exhaustive_calls(rng, isa, sz, tier) + single_calls(rng, isa, sz, tier, gi=2 * ii + sz // 8 + seed) + fc[sz]
             groups.append({"key": "%s/sz%d" % (isa, sz), "header": HDR, "isa": isa, "calls": calls})
         # the vectorised assignment paths of the views (writes only)
         for sz in ((4, 8) if tier == "thorough" else ((4,) if ii % 2 == 0 else (8,))):
@@ -237,52 +280,69 @@ def sym_groups(tier, seed):
     return groups
 
 def real_groups(tier, seed):
-    """real element types per ISA against plain loops (the gather helper is dispatched on sizeof(T) and the ISA)"""
+    """real element types per ISA against plain loops (the gather helper is dispatched on sizeof(T) and the ISA): in every
+    (ISA, element type) group every overload once, with the index element type rotating so that each overload meets
+    int / long / size_t / long long on every ISA; all five operators incl. division, const and non-const parents"""
     rng = random.Random(seed * 5407 + 7)
     isas = core.QUICK_ISAS if tier == "quick" else core.ALL_ISAS
     groups = []
-    itys = ["int", "long", "unsigned long"]
+    itys = ["int", "long", "unsigned long", "long long"]
+    nums = ["int", "long", "short", "unsigned long", "long long"]
     cnt = 3 if tier == "quick" else 6
-    for isa in isas:
+    PRE = "static bool g_verbose=false;"
+    def other(lo, avoid):
+        x = lo + rng.randint(0, 3)
+        while x in avoid: x += 1
+        return x
+    for ix, isa in enumerate(isas):
         for ti, t in enumerate(["float", "double", "int32_t", "int64_t"]):
             V = max(LANES[isa] // (4 if t in ("float", "int32_t") else 8), 1)
-            def other(lo, avoid):
-                x = lo + rng.randint(0, 3)
-                while x in avoid: x += 1
-                return x
+            def ity(k): return itys[(ti + k + seed + ix) % 4]
+            sd = lambda: rng.randrange(1 << 20)
             calls = []
             ms = sorted(set([V, 2 * V + 1])) if tier == "quick" else sizes_around(V, rng, 6)
-            for M in ms:
-                calls.append("rr::flat1<%s,%s,%d,%d>(%du,%d);" % (t, rng.choice(itys), other(M + 1, {M}), M, rng.randrange(1 << 20), cnt))
-            for _ in range(1 if tier == "quick" else 4):
-                tot = rng.choice([2 * V + 2, V + 1, 3 * V, 6])
-                M = rng.choice([d for d in range(1, tot + 1) if tot % d == 0 and d <= 6] or [1]); N = tot // M
+            for q, M in enumerate(ms):
+                calls.append("rr::flat1<%s,%s,%d,%d>(%du,%d);" % (t, ity(q), other(M + 1, {M}), M, sd(), cnt))
+            # quick: float/int64 get {ii, in, if}, double/int32 get {flat2, ni, fi}: every overload once per element size per ISA
+            half = (ti in (0, 3))
+            want = lambda name: tier != "quick" or (name in ("ii", "in", "if")) == half
+            for _ in range((1 if want("ii") else 0) if tier == "quick" else 4):
+                M, N = dims_for(rng.choice(["vt", "vo"]), V, rng)
                 R = other(max(M, 2), {M, N}); C = other(max(N, 2), {R, M, N})
-                calls.append("rr::ii<%s,%s,%s,%d,%d,%d,%d>(%du,%d);" % (t, rng.choice(itys), rng.choice(itys), R, C, M, N, rng.randrange(1 << 20), cnt))
-            if tier == "thorough" or (ti + isas.index(isa)) % 4 == 1:
-                tot = rng.choice([V + 1, 2 * V]); P = rng.choice([d for d in range(1, tot + 1) if tot % d == 0]); Q = tot // P
-                R = rng.randint(2, 5); C = other((tot + R - 1) // R + 1, {R, P, Q})
-                calls.append("rr::flat2<%s,%s,%d,%d,%d,%d>(%du,%d);" % (t, rng.choice(itys), R, C, P, Q, rng.randrange(1 << 20), cnt))
-            swap = ti % 2
-            for sw in (((swap,) if (ti // 2 + isas.index(isa)) % 2 == 0 else ()) if tier == "quick" else (0, 1)):
-                M = rng.choice(ms)
+                calls.append("rr::ii<%s,%s,%s,%d,%d,%d,%d>(%du,%d);" % (t, ity(2), ity(3), R, C, M, N, sd(), cnt))
+            if want("flat2"):
+                P, Q = dims_for("vt", V, rng)
+                R = rng.randint(2, 5); C = other((P * Q + R - 1) // R + 1, {R, P, Q})
+                calls.append("rr::flat2<%s,%s,%d,%d,%d,%d>(%du,%d);" % (t, ity(1), R, C, P, Q, sd(), cnt - 1))
+            for sw in (0, 1):
+                if not want("in" if sw == 0 else "ni"): continue
+                M = ms[(sw + ti) % len(ms)]
                 if not sw: R = other(max(M, 2), {M}); C = other(3, {R, M})
                 else: C = other(max(M, 2), {M}); R = other(3, {C, M})
-                calls.append("rr::in_<%s,%s,%s,%d,%d,%d,%d>(%du,%d);" % (t, rng.choice(itys), rng.choice(["int", "long", "short"]), R, C, M, sw, rng.randrange(1 << 20), cnt))
-            for sw in (((1 - swap,) if (ti // 2 + isas.index(isa)) % 2 == 1 else ()) if tier == "quick" else (0, 1)):
-                D = rng.randint(3, 8); F = rng.randrange(1, D - 1); S = rng.randint(1, 2); L = rng.choice([-1, rng.randint(F + 1, D)])
-                fsz = ((D if L < 0 else L) - F + S - 1) // S
-                K = max(1, rng.choice([V + 1, 2 * V]) // fsz)
+                calls.append("rr::in_<%s,%s,%s,%d,%d,%d,%d>(%du,%d);" % (t, ity(3 + sw), nums[(ti + sw + ix) % 5], R, C, M, sw, sd(), cnt - 1))
+            for sw in (0, 1):
+                if not want("if" if sw == 0 else "fi"): continue
+                K, fsz = dims_for(["vt", "vo"][(sw + ti) % 2], V, rng)
+                F = rng.randint(1, 2); S = rng.randint(1, 2)
+                end = F + (fsz - 1) * S + 1
+                D = end + rng.choice([0, 1]); L = -1 if D == end and rng.random() < 0.6 else end
                 O = other(max(K, 2), {K, D, fsz})
                 R, C = (O, D) if not sw else (D, O)
-                calls.append("rr::fs<%s,%s,%d,%d,%d,%d,%d,%d,%d>(%du,%d);" % (t, rng.choice(itys), R, C, K, F, L, S, sw, rng.randrange(1 << 20), cnt))
-            calls.append("rr::filt<%s,%d>(%du,%d);" % (t, 2 * V + 3, rng.randrange(1 << 20), cnt + 2))
-            if tier == "thorough" or ti % 2 == 1:
-                calls.append("rr::filt<%s,3,%d>(%du,%d);" % (t, V + 1, rng.randrange(1 << 20), cnt + 2))
-            groups.append({"key": "%s/%s" % (isa, t), "header": "random_views_real.h", "isa": isa, "opt": "-O2", "calls": calls, "pre": "static bool g_verbose=false;"})
-            if tier == "thorough" or (ti + isas.index(isa)) % 4 == 0:
+                calls.append("rr::fs<%s,%s,%d,%d,%d,%d,%d,%d,%d>(%du,%d);" % (t, ity(5 + sw), R, C, K, F, L, S, sw, sd(), cnt - 1))
+            calls.append("rr::filt<%s,%d>(%du,%d);" % (t, 2 * V + 3, sd(), cnt + 2))
+            if tier == "thorough" or ti == (ix + seed) % 4:
+                calls.append("rr::filt<%s,3,%d>(%du,%d);" % (t, V + 1, sd(), cnt + 1))
+            groups.append({"key": "%s/%s" % (isa, t), "header": "random_views_real.h", "isa": isa, "opt": "-O2", "calls": calls, "pre": PRE})
+            if tier == "thorough" or (ti + ix) % 4 == 0:
                 groups.append({"key": "%s/%s/vea" % (isa, t), "header": "random_views_real.h", "isa": isa, "opt": "-O2", "calls": calls[:4],
-                               "defs": ["-DFASTOR_USE_VECTORISED_EXPR_ASSIGN"], "pre": "static bool g_verbose=false;"})
+                               "defs": ["-DFASTOR_USE_VECTORISED_EXPR_ASSIGN"], "pre": PRE})
+    # exact rationals: division (and the other operators) without rounding; width 1, so the ISA does not matter
+    calls = ["rr::flat1<vf::Rat,%s,7,5>(%du,3);" % (itys[seed % 4], seed), "rr::ii<vf::Rat,%s,%s,4,5,3,2>(%du,3);" % (itys[(seed + 1) % 4], itys[(seed + 2) % 4], seed + 1),
+             "rr::in_<vf::Rat,int,long,4,3,2,0>(%du,2);" % (seed + 2), "rr::in_<vf::Rat,long,int,3,5,3,1>(%du,2);" % (seed + 3),
+             "rr::fs<vf::Rat,int,4,6,3,1,-1,2,0>(%du,2);" % (seed + 4), "rr::fs<vf::Rat,long,6,4,3,1,5,2,1>(%du,2);" % (seed + 5),
+             "rr::flat2<vf::Rat,int,3,4,2,3>(%du,2);" % (seed + 6), "rr::filt<vf::Rat,9>(%du,5);" % (seed + 7), "rr::filt<vf::Rat,2,3>(%du,4);" % (seed + 8)]
+    groups.append({"key": "rat", "header": "random_views_rat.h", "isa": "sse2", "opt": "-O1", "calls": calls, "pre": PRE})
+    groups.append({"key": "rat/vea", "header": "random_views_rat.h", "isa": "avx2", "opt": "-O1", "calls": calls[:2], "defs": ["-DFASTOR_USE_VECTORISED_EXPR_ASSIGN"], "pre": PRE})
     only = os.environ.get("VERIF_C19_ONLY")
     if only:
         groups = [g for g in groups if re.search(only, g["key"])]
@@ -290,7 +350,7 @@ def real_groups(tier, seed):
 
 def nontrivial(inp, mo):
     d = symrun.kv(inp)
-    if inp.startswith("fview"):
+    if inp.startswith("fv"):
         return "1" in d["mask"] and "0" in d["mask"]
     return True
 
@@ -305,19 +365,29 @@ def run(tier, seed):
              "over the symbolic carrier; exhaustive: every index vector of length <= 3 over parents of <= 5 elements and every pair of per-axis index vectors on small 2-D parents, "
              "all 2^n masks n <= 10 (quick) / 12 (thorough); seeded: lengths around multiples of the vector width for all seven overloads; "
              "non-trivial = every index-view case, and mask cases whose mask is neither all-true nor all-false",
-        nontrivial=nontrivial, per_tu=40,
+        nontrivial=nontrivial, per_tu=36,
         extra_cov={"oracle_configs": sorted(set(g["key"] for g in real_groups(tier, seed))),
                    "variants": ["%s %s %s%s" % ("read" if a == 0 else "write", OPS[o], TREES[t], " const-parent" if c else "") for (a, o, t, c) in VARS],
                    "overloads": ["flat1 (1-D parent, one index tensor)", "flat2 (n-D parent, one index tensor of flat positions)", "ii (index x index)",
                                  "in (index x integer)", "ni (integer x index)", "if (index x fseq)", "fi (fseq x index)", "mask (boolean-mask view)",
                                  "ii:into-2d-view / flat3:into-3d-view / mask:into-3d-view (view as source of a range view)"],
-                   "index_types": ["int", "long", "unsigned long (size_t)", "short (integer argument only)"],
+                   "index_types": ["int", "long", "unsigned long (size_t)", "long long", "short (integer argument only)"],
                    "size_classes": "route = overload:action:{vector-only, vector+tail, tail-only, scalar-loop}; every overload x action x class is generated deterministically per group",
                    "widths": "V = 1 (FASTOR_DONT_VECTORISE), 2, 4 (sse2 / avx2 x 8-byte, sse2 x 4-byte), 8, 16 (avx2 / avx512)"})
 
 def sym_call_of(inp):
     d = symrun.kv(inp)
     T = "Sym" + d["sz"]
+    if inp.startswith("rctor2"):
+        ity = [ITY.get(x, "short") for x in d["ity"].split("/")]
+        call = 'rv::ctor2<%s,%s,%s,%s,%s,%s,%s,%s,%s,%s,%s,%s,%s,%s>("%s","%s");' % (T, ity[0], ity[1], d["r"], d["c"], d["m"], d["n"], d["sr"], d["sc"], d["f0"], d["s0"], d["f1"], d["s1"], d["dyn"], d["i0"], d["i1"])
+        return {"key": "replay", "header": HDR, "isa": d["cfg"], "calls": [call]}
+    if inp.startswith("rvsrc"):
+        call = 'rv::vsrc<%s,%s,%s,%s,%s,%s,%s,%d,%s>("%s");' % (T, ITY[d["ity"]], d["c"], d["n"], d["sn"], d["f"], d["s"], OPS.index(d["op"]), d["dyn"], d["i0"])
+        return {"key": "replay", "header": HDR, "isa": d["cfg"], "defs": ["-DFASTOR_USE_VECTORISED_EXPR_ASSIGN"] if d.get("vea") == "1" else [], "calls": [call]}
+    if inp.startswith("fvsrc"):
+        call = 'rv::fsrc<%s,%s,%s,%s,%s,%d,%s>("%s");' % (T, d["n"], d["sn"], d["f"], d["s"], OPS.index(d["op"]), d["dyn"], d["mask"])
+        return {"key": "replay", "header": HDR, "isa": d["cfg"], "calls": [call]}
     if inp.startswith("fview3"):
         call = 'rv::filt3<%s,%s,%s,%s,%s>("%s");' % (T, d["d0"], d["d1"], d["d2"], d["dyn"], d["mask"])
         return {"key": "replay", "header": HDR, "isa": d["cfg"], "calls": [call]}
@@ -325,6 +395,7 @@ def sym_call_of(inp):
         ity = [ITY.get(x, "short") for x in d["ity"].split("/")]
         if inp.startswith("rview2"):
             call = 'rv::to2d<%s,%s,%s,%s,%s,%s,%s,%s,%s>("%s","%s");' % (T, ity[0], ity[1], d["r"], d["c"], d["m"], d["n"], d["dyn"], d["cst"], d["i0"], d["i1"])
+            return {"key": "replay", "header": HDR, "isa": d["cfg"], "defs": ["-DFASTOR_USE_VECTORISED_EXPR_ASSIGN"] if d.get("vea") == "1" else [], "calls": [call]}
         else:
             call = 'rv::to3d<%s,%s,%s,%s,%s,%s,%s,%s,%s,%s>("%s");' % (T, ity[0], d["d0"], d["d1"], d["d2"], d["p0"], d["p1"], d["p2"], d["dyn"], d["cst"], d["i0"])
         return {"key": "replay", "header": HDR, "isa": d["cfg"], "calls": [call]}
